@@ -204,13 +204,13 @@ func (t *Tokenizer) tokenizeBuffer(buf []byte, last bool) {
 		case skipChar: // skip and continue
 			continue
 		case openObject:
-			if 256 < len(t.mode) {
-				switch t.mode[256] {
-				case 'n':
-					t.handleNum(off)
-				case 't':
-					t.addToken(string(t.tmp))
-				}
+			if 256 < len(t.mode) && t.mode[256] == 't' {
+				t.addToken(string(t.tmp))
+				off-- // the token is complete, handle the bracket again in the new mode
+				break
+			}
+			if 256 < len(t.mode) && t.mode[256] == 'n' {
+				t.handleNum(off)
 			}
 			if t.exkey {
 				t.newError(off, "expected a key")
@@ -296,13 +296,13 @@ func (t *Tokenizer) tokenizeBuffer(buf []byte, last bool) {
 			t.ri = 0
 			continue
 		case openArray:
-			if 256 < len(t.mode) {
-				switch t.mode[256] {
-				case 'n':
-					t.handleNum(off)
-				case 't':
-					t.addToken(string(t.tmp))
-				}
+			if 256 < len(t.mode) && t.mode[256] == 't' {
+				t.addToken(string(t.tmp))
+				off-- // the token is complete, handle the bracket again in the new mode
+				break
+			}
+			if 256 < len(t.mode) && t.mode[256] == 'n' {
+				t.handleNum(off)
 			}
 			if t.exkey {
 				t.newError(off, "expected a key")
